@@ -100,7 +100,7 @@ Theorem label_add_only_canary : forall sn ch pl e pn,
   ers_sync sn ch = Ok pl -> sn_eds sn = Some e -> In pn (pl_label_add pl) ->
   pl_role pl = RoleCanary /\
   exists p nn, In p (sn_pods sn) /\ p_name p = pn /\ p_rs_label p = r_name (sn_rs sn) /\
-               node_of_pod p = Some nn /\ In nn (canary_nodes_of e).
+               node_of_pod p = Some nn /\ In nn (canary_nodes_of e) /\ own_pod e p.
 Proof.
   intros sn ch pl e pn H He Hin. apply ers_sync_inv in H.
   destruct H as [rl st after err Hp | e' freq cx so He' Hd Hf Hg Hc Hs Hfin].
@@ -124,7 +124,8 @@ Proof.
       apply find_item_some in Ei. destruct Ei as [Hi Hname].
       rewrite Hit in Hi. apply items_of_names in Hi. destruct Hi as [Hentry _]. rewrite Hname, Epod, Hfo in Hentry.
       destruct (kept_never_unknown _ _ _ _ _ _ _ _ Hentry) as [_ [Hl Hnode]].
-      exists p, nn. repeat split; auto. unfold canary_nodes_of. rewrite <- Hcn. assumption.
+      exists p, nn. repeat split; auto; [unfold canary_nodes_of; rewrite <- Hcn; assumption|].
+      eapply listed_pods_spec; eassumption.
     + destruct (strategy_unknown_shape _ _ _ Hs) as [_ [_ [_ [Hla _]]]]. rewrite Hla in Hin. contradiction.
 Qed.
 
